@@ -68,6 +68,8 @@ def plan_run(run_seed, prop):
         "pipeline": tp.choice(["plain", "expand_let", "expand_macro", "expand_let_map", "fill_let", "passes_first", "autoload", "run_string", "run_file"]),
         "bounding": tp.weighted([("native", 6), ("caller", 1)]),
         "rerun": tp.chance(0.35),
+        "gateset_style": tp.choice(["direct", "direct", "copied"]),
+        "scan": tp.chance(0.4),
         "tapes": None,
     }
     return plan
@@ -331,7 +333,7 @@ def execute(plan):
         if any(v == 0 for v in ov.values()):
             probe("let_overridden_to_0")
 
-    G = GS.build_gateset()
+    G = GS.build_gateset(style=plan.get("gateset_style", "direct"))
     clock = seams.StepClock()
     budget = budget_for(M, R, prog)
     scratch = modname = None
@@ -433,6 +435,49 @@ def execute(plan):
             if not same:
                 viol.add("C03", "rerun_state_identical", "mismatch", "A")
             log.append(("rerun", "ok", result_digest(b)))
+
+    # --- C03: a scan of override dictionaries over ONE parsed circuit object
+    if plan.get("scan") and prog["lets"] and scratch is None:
+        from jaqalpaq.parser import parse_jaqal_string
+        from jaqalpaq.core.algorithm import fill_in_let
+
+        ts = st.get("scan")
+        alts = []
+        for _ in range(3):
+            cand = {}
+            for name, v in prog["lets"]:
+                if ts.chance(0.6):
+                    cand[name] = ts.choice(gen.INT_VALUES) if isinstance(v, int) else ts.choice(gen.FLOAT_VALUES)
+            try:
+                R2 = progast.resolve(plan["prog"], cand, executable=True)
+            except progast.Invalid:
+                continue
+            alts.append((cand, R2))
+        if alts:
+            probe("override_scan")
+            o0 = seams.outcome_of(lambda: parse_jaqal_string(texts[0][1], inject_pulses=G, autoload_pulses=False), clock, budget)
+            if o0["kind"] == "ok":
+                shared = o0["value"]
+                for cand, R2 in [(ov or {}, R)] + alts:
+                    M2 = refmachine.Machine(R2)
+                    M2.static_pass(st.get("schedA2"))
+                    M2.dynamic_pass(st.get("schedB2"))
+                    s4 = seams.SimSampler(st.get("sampler:scan"), "faithful")
+                    old4 = seams.install_sampler(s4)
+                    try:
+                        o4 = seams.outcome_of(lambda: run_jaqal_circuit(fill_in_let(shared, override_dict=dict(cand))), clock, budget_for(M2, R2, plan["prog"]))
+                    finally:
+                        seams.install_sampler(old4)
+                    if o4["kind"] == "ok":
+                        check_result(viol, "scan %r" % (cand,), o4["value"], M2, R2, s4, "faithful")
+                        log.append(("scan", result_digest(o4["value"])))
+                    elif o4["kind"] == "nonterm":
+                        viol.add("C08", "termination", "nonterm", o4["where"], "override scan %r" % (cand,))
+                    else:
+                        msg = "override scan %r: %s: %s" % (cand, o4["kind"], o4["exc"])
+                        viol.add("C03", "valid_program_runs", o4["kind"], o4["where"], msg)
+                        viol.add("C08", "valid_program_runs", o4["kind"], o4["where"], msg)
+                        log.append(("scan", o4["kind"]))
 
     # --- the job API: execute the same job twice, reading the views in between (C15)
     if okA and circuits.get("A") is not None and plan.get("rerun") is not None and st.get("pipeline2").chance(0.3):
@@ -654,6 +699,10 @@ def candidates(plan):
         yield variant(sampler_mode="faithful")
     if plan["bounding"] != "native":
         yield variant(bounding="native")
+    if plan.get("scan"):
+        yield variant(scan=False)
+    if plan.get("gateset_style", "direct") != "direct":
+        yield variant(gateset_style="direct")
     for k in list(plan["overrides"] or {}):
         ov = dict(plan["overrides"])
         del ov[k]
@@ -687,7 +736,7 @@ ASSUMPTIONS = [
     "the step clock sees Python line events only; a hang inside C code would surface as a wall-clock kill (exit 2), not as a verdict",
 ]
 EXPECTED_PROBES = {
-    "C03": ["feat:parallel_block", "branch_order_permuted", "feat:alias_chain_depth>=2", "feat:macro_call", "overrides", "rerun_same_object", "feat:idle_gate", "feat:gate_without_unitary", "feat:let_sized_register", "feat:strided_slice"],
+    "C03": ["feat:parallel_block", "branch_order_permuted", "feat:alias_chain_depth>=2", "feat:macro_call", "overrides", "rerun_same_object", "override_scan", "feat:idle_gate", "feat:gate_without_unitary", "feat:let_sized_register", "feat:strided_slice"],
     "C08": ["zero_loop_around_bracket", "feat:zero_loop", "feat:loop_count_by_name", "let_overridden_to_0", "feat:repeated_prepare", "feat:trailing_prepare", "feat:macro_call", "hw_three_encodings", "feat:subcircuit_block"],
     "C09": ["c09_pair", "c09_structure", "feat:macro_call", "feat:loop"],
     "C15": ["hw_three_encodings", "sampler_outcome_p<0.01", "visits", "job_executed_twice"],
